@@ -6,10 +6,16 @@
    whose centre is at least one step outside r does not; decoding the run of a segment restores
    its start within half a step and places its end between 1/2 and 3/2 step too late -- so the
    "within one step per boundary" claim is REFUTED for offsets (known finding F7).
-   Tied by the correspondence, not proved: the assembly of the matrices (clipping, saturation,
-   -1 outside the support, label-list check, frame counts), checked on every case both exactly
-   against the model and against the centre rule as a boolean specification. Statements only. *)
-From PV Require Import Model.Discretize Proofs.WindowP Proofs.DiscretizeP.
+   The assembly of the matrices is proved as well: discretize's window, frame count, label order
+   and columns ([dval] is entry (frame, label) as computed): an entry is 1 exactly when the frame is
+   in the centre-mode range of a segment of the label's support (clipping never wraps around), hence
+   1 one step inside and 0 one step outside, and nothing but 0 / 1; the frame count without
+   `duration` is within one frame of (support duration) / step. one_hot_encoding ([oval]): -1 on
+   frames outside the support's ranges (given that the label's segments lie within support
+   segments), 1 / 0 by membership in a label range inside, saturating; refusal when an explicit list
+   misses a label. Tied only: decoding as a whole (per-run bounds are proved), `labels` given in a
+   different order for discretize (by the exact comparison). Statements only. *)
+From PV Require Import Model.Discretize Proofs.SupportP Proofs.WindowP Proofs.AnnotationInvP Proofs.RangesP Proofs.DiscretizeP.
 
 Theorem C17_centre_one_step_inside_is_active : forall w, 0 < w_step w -> forall r f,
   2 * (st r + w_step w) <= centre2 w f <= 2 * (en r - w_step w) ->
@@ -29,6 +35,68 @@ Theorem C17_one_step_per_boundary_refuted :
   exists w r, 0 < w_step w /\ centre2 w (snd (crop_range w r ACenter None)) - 2 * en r > 2 * w_step w.
 Proof. exact decode_offset_refuted. Qed.
 
+(* ---- Annotation.discretize: the matrix ---- *)
+Theorem C17_discretize_shape : forall eps a support rdur rstep labs duration d,
+  discretize eps a support rdur rstep labs duration = Some d ->
+  let sup := match support with Some s => s | None => extent_l (tl_of eps (map fst (a_tracks a))) end in
+  let cropped := crop_ann eps a (SupSeg sup) Inter in
+  let c1 := fst (labels eps cropped) in
+  win_make rdur rstep (st sup) None = Some (d_win d) /\
+  d_frames d = match duration with
+               | None => closest_frame (d_win d) (en sup) - closest_frame (d_win d) (st sup)
+               | Some x => rhe x rstep
+               end /\
+  0 <= d_frames d /\
+  d_labels d = match labs with Some l => l | None => snd (labels eps cropped) end /\
+  d_cols d = map (fun l => map (dval eps c1 (d_win d) (d_frames d) l) (zrange 0 (d_frames d))) (d_labels d).
+Proof. exact discretize_shape. Qed.
+Theorem C17_discretize_source_satisfies_invariant : forall eps, 0 <= eps -> forall a sup, AInv eps a ->
+  AInv eps (fst (labels eps (crop_ann eps a (SupSeg sup) Inter))).
+Proof. exact discretize_source_inv. Qed.
+Theorem C17_discretize_entry : forall eps, 0 <= eps -> forall c1 w n l f, AInv eps c1 -> 0 < w_step w -> 0 <= f < n ->
+  (dval eps c1 w n l f = 1 <->
+   exists s, In s (support eps 0 (lab_tl eps (a_tracks c1) l)) /\ in_r (crop_range w s ACenter None) f) /\
+  (dval eps c1 w n l f = 0 \/ dval eps c1 w n l f = 1).
+Proof. exact dval_spec. Qed.
+Theorem C17_discretize_one_when_centre_one_step_inside : forall eps, 0 <= eps -> forall c1 w n l f s,
+  AInv eps c1 -> 0 < w_step w -> 0 <= f < n -> In s (support eps 0 (lab_tl eps (a_tracks c1) l)) ->
+  2 * (st s + w_step w) <= centre2 w f <= 2 * (en s - w_step w) -> dval eps c1 w n l f = 1.
+Proof. exact dval_one_inside. Qed.
+Theorem C17_discretize_zero_when_centre_one_step_outside : forall eps, 0 <= eps -> forall c1 w n l f,
+  AInv eps c1 -> 0 < w_step w -> 0 <= f < n ->
+  (forall s, In s (support eps 0 (lab_tl eps (a_tracks c1) l)) ->
+             centre2 w f <= 2 * (st s - w_step w) \/ 2 * (en s + w_step w) <= centre2 w f) ->
+  dval eps c1 w n l f = 0.
+Proof. exact dval_zero_outside. Qed.
+Theorem C17_frame_count_within_one_frame : forall w t0 t1, 0 < w_step w ->
+  Z.abs ((closest_frame w t1 - closest_frame w t0) * w_step w - (t1 - t0)) <= w_step w.
+Proof. exact frames_within_one. Qed.
+
+(* ---- one_hot_encoding: the matrix ---- *)
+Theorem C17_one_hot_shape : forall eps a support wdur wstep labs d,
+  one_hot_encoding eps a support wdur wstep labs = Some d ->
+  let extent := match support with SupSeg s => s | SupTl l => extent_l l end in
+  let sup_l := match support with SupSeg s => tl_of eps [s] | SupTl l => l end in
+  win_make wdur wstep (st extent) None = Some (d_win d) /\
+  d_frames d = samples (d_win d) (duration eps extent) ACenter /\
+  d_labels d = match labs with Some l => l | None => snd (labels eps a) end /\
+  (forall l, In l (snd (labels eps a)) -> name_in l (d_labels d) = true) /\
+  d_cols d = map (onehot_col eps (fst (labels eps a)) (snd (labels eps a)) (d_win d) (d_frames d) sup_l) (d_labels d).
+Proof. exact one_hot_shape. Qed.
+Theorem C17_one_hot_refuses_missing_label : forall eps a support wdur wstep L l,
+  In l (snd (labels eps a)) -> name_in l L = false -> one_hot_encoding eps a support wdur wstep (Some L) = None.
+Proof. exact one_hot_refuses. Qed.
+Theorem C17_one_hot_entry : forall known rs n f, 0 <= f < n ->
+  (~ cov known f -> (forall k, cov rs k -> cov known k) -> oval known rs n f = -1) /\
+  (cov known f -> cov rs f -> oval known rs n f = 1) /\
+  (cov known f -> ~ cov rs f -> oval known rs n f = 0).
+Proof. exact oval_spec. Qed.
+Theorem C17_label_ranges_within_support_ranges : forall eps, 0 <= eps -> forall w sup_l segs,
+  0 < w_step w -> wf eps sup_l -> wf eps segs ->
+  (forall s, In s (support eps 0 segs) -> exists S, In S (support eps 0 sup_l) /\ st S <= st s /\ en s <= en S) ->
+  forall k, cov (crop_ranges_tl eps w segs ACenter) k -> cov (crop_ranges_tl eps w sup_l ACenter) k.
+Proof. exact label_ranges_within_support. Qed.
+
 Example C17_nonvacuous :
   let a := ann_of 0 None None [((0, 8), NStr "_", NStr "a"); ((12, 20), NStr "_", NStr "b")] in
   option_map d_cols (discretize 0 a None 4 4 None None) = Some [[1; 1; 1; 0]; [0; 0; 1; 1]] /\
@@ -41,3 +109,13 @@ Print Assumptions C17_centre_one_step_outside_is_inactive.
 Print Assumptions C17_decoded_onset_within_half_step.
 Print Assumptions C17_decoded_offset_half_to_three_halves_step_late.
 Print Assumptions C17_one_step_per_boundary_refuted.
+Print Assumptions C17_discretize_shape.
+Print Assumptions C17_discretize_source_satisfies_invariant.
+Print Assumptions C17_discretize_entry.
+Print Assumptions C17_discretize_one_when_centre_one_step_inside.
+Print Assumptions C17_discretize_zero_when_centre_one_step_outside.
+Print Assumptions C17_frame_count_within_one_frame.
+Print Assumptions C17_one_hot_shape.
+Print Assumptions C17_one_hot_refuses_missing_label.
+Print Assumptions C17_one_hot_entry.
+Print Assumptions C17_label_ranges_within_support_ranges.
